@@ -138,8 +138,12 @@ class Distribution(DistributionModel):
             offset = 1 if len(self.batch_shape) == 0 else len(self.batch_shape)
             return x_shape[:-offset]
         else:
-            # the distribution is a likelihood term
-            return self.batch_shape[: -len(x_shape)]
+            # the distribution is a likelihood term: the event dimensions of x
+            # are not part of the batch shape
+            batch_dims = len(x_shape) - len(self.event_shape)
+            if batch_dims <= 0:
+                return self.batch_shape
+            return self.batch_shape[:-batch_dims]
 
     @property
     def distribution(self) -> torch.distributions.Distribution:
